@@ -1,10 +1,34 @@
 # p_bundle engine: C46
 PROPS = {
     "C46": dict(
-        engine="p_bundle", quick_checks=10000, thorough_checks=16000, quick_shards=14, thorough_shards=16,
-        quick_budget_s=240, thorough_budget_s=1500, thorough_race=True,
-        needs_cli=False, gomaxprocs=[4, 8, 2, 4], level="fault_enumeration",
-        rule="placeholder",
-        assumptions=[],
+        engine="p_bundle", quick_checks=8000, thorough_checks=16000, quick_shards=14, thorough_shards=16,
+        quick_budget_s=300, thorough_budget_s=1500, thorough_race=True,
+        gomaxprocs=[4, 8, 2, 4],  # per shard; 14-16 shards x 16 procs only makes the runtimes spin against each other
+        needs_cli=False, level="fault_enumeration",
+        rule="a case = SVG-like document (d2-style prolog/style/g/text around the references, duplicates of an href, an image that already is a "
+             "data: URI, lookalike elements that are no references, escaped &amp;/&#39; in hrefs, relative/absolute/sub-directory/../ paths, "
+             "stdin input path) over 1-6 distinct images (rarely 17-23: more than the 16 workers) that are local FIFOs/regular files or URLs of "
+             "a loopback HTTP server, a failing subset (local: missing, directory, dangling symlink; remote: 404, 500, reset connection, "
+             "truncated body, body over 32 MiB) and 1-4 (core: all n!) release orders. The harness releases the workers in that order: FIFO "
+             "write / HTTP handler gate, then a gate inside the worker's last log call (our simplelog.Logger), one worker at a time (strict), "
+             "I/O gates only (io), all I/O first then results in order (pileup) or everything at once (burst). BundleLocal, BundleRemote or both "
+             "in CLI order; with and without the bundler's cache. Core: for n<=4 (thorough n<=5) images x {local, remote, mixed} every failure "
+             "subset with every order (n<=3 also under io/pileup/burst), wide, cache, stdin, big/empty content, n=6 selections. Oracle per "
+             "schedule: output == independent sequential reference (hand-written scanner; loaded eligible href -> data:<mime>;base64,<content>, "
+             "everything else byte-identical), error nil iff nothing fails, error text mentions every failing href and no other href of the case; "
+             "all schedules of a case give the same bytes. non-trivial = >=3 eligible images, >=1 failure, some release order != document order, "
+             "no gate timed out.",
+        assumptions=[
+            "MIME rule taken from imgbundler.worker/sniffMimeType: Content-Type header of the response if present, else extension of the href "
+            "(raw href text for local files, URL path for remote), else http.DetectContentType; 'text/xml' -> 'image/svg+xml'; octet-stream "
+            "containing '<svg' -> 'image/svg+xml' (the reference uses the same stdlib mime tables)",
+            "eligible = first-occurrence-distinct href not starting with 'data:' whose unescaped form has an http* scheme (BundleRemote) or not (BundleLocal)",
+            "the output returned together with an error is checked too (the CLI keeps using it)",
+            "the release order is enforced through blocking I/O and the logger only; measured on an instrumented copy the collecting loop saw "
+            "exactly the requested order in 98-100% of strict schedules. A gate that times out degrades the schedule (counted, case not "
+            "non-trivial), never a violation; a bundler that never returns is left to the per-case watchdog",
+            "thorough runs under -race without the 32 MiB response case (minutes under instrumentation); a data race makes the Go test fail "
+            "without a recorded case, which the driver reports as inconclusive",
+        ],
     ),
 }
